@@ -59,7 +59,8 @@ def _run_one(pid, tier, seed, scratch, mir_dir, cfg, jobs, item):
                outp, str(jobs), scratch]
         t0 = time.time()
         to = meta.get("timeout", {}).get(tier, cfg["timeout"])
-        p = subprocess.Popen(cmd, start_new_session=True, stdout=subprocess.PIPE, stderr=subprocess.STDOUT, text=True)
+        p = subprocess.Popen(cmd, start_new_session=True, stdout=subprocess.PIPE, stderr=subprocess.STDOUT, text=True,
+                             env=dict(os.environ, EBV_REPO_COPY=os.path.join(scratch, "repo")))
         try:
             so, _ = p.communicate(timeout=to)
             timed_out = False
